@@ -270,6 +270,27 @@ class Ctx:
             self._driver.close()
 
 
+def classify_harness_error(e):
+    """'library' when the harness stopped because of what the LIBRARY did — the exception was raised inside /repo's code in
+    a call the harness does not guard (the unchanged library never raises there, or the clean run would stop too), or it
+    is an attribute / type / key / index error on the harness side while handling a library object (e.g. a section
+    that is no longer of the class the harness asks questions of).  Anything else (driver I/O, RuntimeError raised by the
+    harness about its own tooling, OS errors, memory) is 'toolchain': exit 2."""
+    tb = e.__traceback__
+    frames = []
+    while tb is not None:
+        frames.append(tb.tb_frame.f_code.co_filename)
+        tb = tb.tb_next
+    repo = os.path.realpath(REPO) + os.sep
+    if frames and os.path.realpath(frames[-1]).startswith(repo):
+        return 'library'
+    if isinstance(e, (AttributeError, TypeError, KeyError, IndexError, ValueError, AssertionError)) and not isinstance(e, RuntimeError):
+        inner = os.path.realpath(frames[-1]) if frames else ''
+        if inner.startswith(os.path.join(VERIF, 'harness', 'props') + os.sep) or inner.startswith(os.path.join(VERIF, 'harness', 'elfbuild')):
+            return 'library'
+    return 'toolchain'
+
+
 def load_findings(prop):
     path = os.path.join(VERIF, 'known_findings.json')
     if not os.path.exists(path):
@@ -398,10 +419,12 @@ def main():
     search = bool(tie_problems)
     ctx = Ctx(prop, tier, seed, search)
     harness_error = None
+    harness_error_kind = None
     try:
         mod.run(ctx)
-    except Exception:
+    except Exception as e:
         harness_error = traceback.format_exc()
+        harness_error_kind = classify_harness_error(e)
         log(harness_error)
     finally:
         ctx.close()
@@ -457,6 +480,19 @@ def main():
         if e['id'] in known_hit:
             lines.append('KNOWN-FINDING: property=%s %s' % (prop, e['what']))
     if harness_error is not None and not unknown:
+        if harness_error_kind == 'library':
+            # The correspondence harness could not process what the library now does (an exception out of the library
+            # in a place where the unchanged library never raises, or a library object of another kind than the
+            # harness was handed before).  That is a broken correspondence, not a toolchain failure: no failing input
+            # could be isolated, so report it as such, naming the stream's traceback in the replay file.
+            payload = {'property': prop, 'no_failing_input_found': True, 'seed': seed, 'tier': tier,
+                       'broken': tie_problems + ['correspondence harness stopped: the library no longer behaves in a way it can compare'],
+                       'harness_traceback': harness_error[-4000:], 'searched': out.evaluations}
+            path = write_replay(prop, payload)
+            write_evidence(prop, tier, seed, coverage, time.time() - t0, 1, assumptions)
+            print('\n'.join(lines + ['VIOLATION property=%s replay=%s no-failing-input-found' % (prop, path)]))
+            log('%s %s: harness stopped on library behaviour, exit 1' % (prop, tier))
+            sys.exit(1)
         write_evidence(prop, tier, seed, coverage, time.time() - t0, 0, assumptions)
         log('harness error — check could not run')
         print('\n'.join(lines))
